@@ -186,12 +186,21 @@ func evalC09(c c09Case, o *Obs) error {
 	if c.K == 50 {
 		o.Class("C09:k=50")
 	}
-	shared := make([]byte, 2048) // one buffer carries every item handed to the filter
+	shared := bytes.Repeat([]byte{0xff}, 2048) // one buffer carries every item handed to the filter
+	type loadedMsg struct {
+		msg  *wire.MsgFilterLoad
+		bits []byte // what its bit array held when the filter let go of it
+	}
+	var dropped []loadedMsg // messages handed to the filter earlier: they are the caller's again
+	cur := f.MsgFilterLoad()
 	for step, op := range c.Ops {
 		where := fmt.Sprintf("filter(len=%d,k=%d,tweak=%d) step %d %s(%x,%d)", c.Len, c.K, c.Tweak, step, op.Op, []byte(op.Data), op.Index)
 		if (op.Op == "add" || op.Op == "matches") && len(op.Data) <= len(shared) {
 			n := copy(shared, op.Data)
 			op.Data = shared[:n:n]
+			if step%2 == 0 { // spare capacity, and whatever the previous item left behind it (or 0xff)
+				op.Data = shared[:n]
+			}
 		}
 		switch op.Op {
 		case "add":
@@ -239,6 +248,10 @@ func evalC09(c c09Case, o *Obs) error {
 				sawQueryAfter = true
 			}
 		case "unload":
+			if cur != nil {
+				dropped = append(dropped, loadedMsg{cur, append([]byte{}, cur.Filter...)})
+				cur = nil
+			}
 			f.Unload()
 			m.loaded = false
 			inserted = nil
@@ -247,8 +260,23 @@ func evalC09(c c09Case, o *Obs) error {
 			if op.Len < 1 || op.Len > 36000 || op.K > 50 {
 				return hbug("reload parameters outside the wire limits")
 			}
-			f.Reload(wire.NewMsgFilterLoad(make([]byte, op.Len), op.K, op.Tweak, wire.BloomUpdateType(op.Flags)))
-			m = newRefBloom(op.Len, op.K, op.Tweak, op.Flags)
+			if cur != nil {
+				dropped = append(dropped, loadedMsg{cur, append([]byte{}, cur.Filter...)})
+			}
+			if len(dropped) > 0 && op.Len%3 == 0 {
+				// the caller loads a message again that the filter held before: it carries what was inserted then
+				oi := int(op.Tweak) % len(dropped)
+				old := dropped[oi]
+				dropped = append(dropped[:oi:oi], dropped[oi+1:]...)
+				cur = old.msg
+				f.Reload(cur)
+				m = &refBloom{loaded: true, bits: append([]byte{}, old.bits...), k: cur.HashFuncs, tweak: cur.Tweak, flags: byte(cur.Flags)}
+				o.Class("C09:reload-of-an-earlier-message")
+			} else {
+				cur = wire.NewMsgFilterLoad(make([]byte, op.Len), op.K, op.Tweak, wire.BloomUpdateType(op.Flags))
+				f.Reload(cur)
+				m = newRefBloom(op.Len, op.K, op.Tweak, op.Flags)
+			}
 			inserted = nil
 			o.Class("C09:reload")
 		default:
@@ -269,6 +297,11 @@ func evalC09(c c09Case, o *Obs) error {
 			}
 		}
 		// invariants after every step
+		for _, d := range dropped {
+			if d.msg != cur && !bytes.Equal(d.msg.Filter, d.bits) {
+				return fmt.Errorf("%s: a message the filter was given earlier and has let go of (Unload / Reload) was modified afterwards: bit array %x, was %x", where, clip(d.msg.Filter), clip(d.bits))
+			}
+		}
 		if f.IsLoaded() != m.loaded {
 			return fmt.Errorf("%s: IsLoaded() = %v, want %v", where, f.IsLoaded(), m.loaded)
 		}
@@ -453,6 +486,13 @@ var kC09Murmur = register(&Kind[c09Murmur]{
 		o.Class("C09:murmur-len%%4=%d", len(c.Data)%4)
 		if got, want := bloom.MurmurHash3(c.Seed, c.Data), refMurmur3(c.Seed, c.Data); got != want {
 			return fmt.Errorf("MurmurHash3(%#x,%x) = %#x, reference %#x", c.Seed, []byte(c.Data), got, want)
+		}
+		// the same bytes as a window of a larger buffer: what lies behind them is not part of the item
+		for _, fill := range []byte{0x00, 0xff, 0x5a} {
+			buf := append(append([]byte{fill}, c.Data...), fill, fill, fill, fill, fill)
+			if got, want := bloom.MurmurHash3(c.Seed, buf[1:1+len(c.Data)]), refMurmur3(c.Seed, c.Data); got != want {
+				return fmt.Errorf("MurmurHash3(%#x,%x) = %#x when the item is followed by bytes %#x in the caller's buffer, reference %#x", c.Seed, []byte(c.Data), got, fill, want)
+			}
 		}
 		return nil
 	},
